@@ -2,8 +2,8 @@ import Logrange.Model.CIndexFile
 /-!
 # C07 — pipe files (`pkg/pipe/persister.go`, `service.go: Init/Shutdown/savePipes`, `ppipe.go: newPPipe/saveState/delete`)
 
-* `pipes.dat` — the registry (`[]Pipe`), written by `savePipes`, which only `Shutdown` calls
-  (`Generated.C07.savePipesCallers`).
+* `pipes.dat` — the registry (`[]Pipe`), written by `savePipes` (callers: `Generated.C07.savePipesCallers` — today
+  `CreatePipe`, `DeletePipe`, `Shutdown`) through `pipes.dat.tmp` and a rename.
 * `pipe<escaped name>.dat` — the per-source positions of one pipe (`map[string]*ppDesc`), written by
   `savePipeInfo` after every copied batch, removed by `onDeleteStream`.
 
@@ -53,9 +53,15 @@ def pipeFileName (name : Bytes) : Bytes :=
   pipeFilePrefix ++ (if pipeFileNameEscapes then escape name else name) ++ pipeFileSuffix
 
 def pipesDat : Path := .pipesDir pipesFileName
+/-- `pipes.dat.tmp` -/
+def pipesTmp : Path := .pipesDir (pipesFileName ++ [46, 116, 109, 112])
 def pipeInfoPath (name : Bytes) : Path := .pipesDir (pipeFileName name)
 
-def savePipesSteps (c : Codec (List Pipe)) (ps : List Pipe) : List Step := writeFile pipesDat (c.enc ps)
+/-- `persister.savePipes`: the new content is written next to the file and renamed over it
+(`Generated.C07.savePipesViaTmpRename`; before the repair of finding F41: rewritten in place) -/
+def savePipesSteps (c : Codec (List Pipe)) (ps : List Pipe) : List Step :=
+  if savePipesViaTmpRename then writeFile pipesTmp (c.enc ps) ++ [.rename pipesTmp pipesDat]
+  else writeFile pipesDat (c.enc ps)
 def savePipeInfoSteps (c : Codec PosMap) (name : Bytes) (pm : PosMap) : List Step :=
   writeFile (pipeInfoPath name) (c.enc pm)
 
